@@ -169,12 +169,15 @@ def patch_select(connection_module, fake=None):
 
 # ====================================================================== connection-level simulation
 
+PAUSE = object()     # in a server's chunk list: the following bytes arrive later than any timeout the client may have set
+
+
 class Server(object):
     """One scripted TCP connection: the chunks the server's bytes arrive in, and how the script ends:
     'eof' (the server closes) or 'idle' (the server stays silent; the harness unwinds the client)."""
 
     def __init__(self, chunks=(), end='eof', refuse=False, fail_send_after=None):
-        self.chunks = collections.deque(bytes(c) for c in chunks if len(c))
+        self.chunks = collections.deque(c if c is PAUSE else bytes(c) for c in chunks if c is PAUSE or len(c))
         self.end = end
         self.refuse = refuse
         self.fail_send_after = fail_send_after     # socket.send raises IOError after this many calls
@@ -192,8 +195,18 @@ class SimStream(SegStream):
         SegStream.__init__(self, [], eof=False)
         self.server, self.net = server, net
 
-    def pull(self):
-        if self.server.chunks:
+    def pull(self, in_read=False):
+        while self.server.chunks:
+            if self.server.chunks[0] is PAUSE:
+                # nothing arrives for a long while.  A select() finds nothing readable this time; a blocking read waits for the
+                # data; a read on a socket that was given a timeout raises socket.timeout
+                self.server.chunks.popleft()
+                if not in_read:
+                    return False
+                if getattr(self.server.sock, 'timeout', None) is not None:
+                    import socket as real_socket
+                    raise real_socket.timeout('timed out')
+                continue
             self.feed(self.server.chunks.popleft())
             return True
         return False
@@ -204,7 +217,7 @@ class SimStream(SegStream):
     def read(self, n=-1):
         if self.closed:
             raise ValueError('I/O operation on closed file')
-        if not self.segs and not self.pull():
+        if not self.segs and not self.pull(in_read=True):
             if self.server.end == 'eof':
                 self.eof = True
             else:
@@ -218,6 +231,7 @@ class SimSocket(object):
         self.server = None
         self.closed = False
         self.nsend = 0
+        self.timeout = None          # blocking, as a new socket is
 
     def connect(self, addr):
         srv = self.net.next_server()
@@ -241,6 +255,9 @@ class SimSocket(object):
         self.nsend += 1
         if self.server.fail_send_after is not None and self.nsend > self.server.fail_send_after:
             raise BrokenPipeError(32, 'Broken pipe')
+        if self.timeout is not None and len(data) > 1024:
+            # a socket with a timeout is non-blocking underneath: send() takes what fits and says how much that was
+            data = bytes(data)[:len(data) // 2]
         self.server.sends.append(bytes(data))
         cb = getattr(self.server, 'on_first_frame', None)
         if cb is not None and len(self.server.sends) == 2:
@@ -279,7 +296,13 @@ class SimSocket(object):
         self.net.log.append(('close', self.server.index if self.server is not None else None))
 
     def settimeout(self, t):
-        pass
+        self.timeout = t
+
+    def gettimeout(self):
+        return self.timeout
+
+    def setblocking(self, flag):
+        self.timeout = None if flag else 0.0
 
     def setsockopt(self, *a):
         pass
@@ -390,7 +413,10 @@ class Net(object):
 
         def sim_join(self_, timeout=None):
             if net.join_hook is not None:
-                return net.join_hook(self_)
+                try:
+                    return net.join_hook(self_, timeout)
+                except TypeError:
+                    return net.join_hook(self_)
             if self_.is_alive():
                 raise RuntimeError('join on a live thread in a synchronous simulation')
 
